@@ -13,6 +13,7 @@ import itertools
 from zope.interface import Interface
 from zope.interface.interface import fromFunction, fromMethod, InterfaceClass, Method
 from zope.interface.common import ABCInterfaceClass, ABCInterface
+from .common import wmod, newworld
 
 P = inspect.Parameter
 KINDS = ('function', 'method', 'body', 'abc')
@@ -77,6 +78,7 @@ def sigstring(exp):
 
 def eval_one(sig, kind):
     self_ = kind in ('method', 'abc')
+    newworld()
     src = source(sig, self_)
     d = {}
     try:
@@ -95,12 +97,12 @@ def eval_one(sig, kind):
         m = fromMethod(bound)
         exp = expected(inspect.signature(bound), False)
     elif kind == 'body':
-        I = InterfaceClass('IBody', (Interface,), {'f': f, '__module__': 'w'})
+        I = InterfaceClass('IBody', (Interface,), {'f': f, '__module__': wmod()})
         m = I['f']
         exp = expected(inspect.signature(f), False)
     else:
-        A = abc.ABCMeta('Abc', (), {'f': f, '__module__': 'w'})
-        I = ABCInterfaceClass('IAbc', (ABCInterface,), {'abc': A, '__module__': 'w'})
+        A = abc.ABCMeta('Abc', (), {'f': f, '__module__': wmod()})
+        I = ABCInterfaceClass('IAbc', (ABCInterface,), {'abc': A, '__module__': wmod()})
         m = I['f']
         exp = expected(inspect.signature(f), True)
     if not isinstance(m, Method):
